@@ -103,17 +103,29 @@ func resolveLockRoles(c *Ctx) *lockRoles {
 	lm := func(name string) *ssa.Function { return c.RequireFn(c.P.MethodOf(r.locker, name), "locker."+name) }
 	r.tryLock, r.lock, r.lockCtx, r.unlock = lm("TryLock"), lm("Lock"), lm("LockWithCtx"), lm("Unlock")
 	// held flag: the int32 field passed to CompareAndSwapInt32(.,1,0) in Unlock
-	ir.Instrs(r.unlock, func(in ssa.Instruction) {
-		if call, ok := in.(*ssa.Call); ok && ir.CalleeFullName(call) == "sync/atomic.CompareAndSwapInt32" {
-			o, _ := ir.ConstInt(call.Call.Args[1])
-			n, _ := ir.ConstInt(call.Call.Args[2])
-			if fa, isFA := call.Call.Args[0].(*ssa.FieldAddr); isFA && o == 1 && n == 0 {
-				r.heldF = ir.FieldOf(fa)
+	// (either style of sync/atomic: the functions on an int32 field, or the methods of an atomic.Int32 field; Unlock
+	// itself or a private helper it calls)
+	findHeld := func(fn *ssa.Function) {
+		ir.Instrs(fn, func(in ssa.Instruction) {
+			if op, addr, args, ok := ir.AtomicCall(in); ok && op == "CompareAndSwap" && len(args) == 2 {
+				o, _ := ir.ConstInt(args[0])
+				n, _ := ir.ConstInt(args[1])
+				if fa, isFA := addr.(*ssa.FieldAddr); isFA && o == 1 && n == 0 && namedOf(fa.X.Type()) == r.locker {
+					r.heldF = ir.FieldOf(fa)
+				}
+			}
+		})
+	}
+	findHeld(r.unlock)
+	if r.heldF == nil {
+		for _, call := range ir.Calls(r.unlock) {
+			if cal := ir.StaticCallee(call); cal != nil && len(cal.Blocks) > 0 && cal.Signature.Recv() != nil && namedOf(cal.Signature.Recv().Type()) == r.locker {
+				findHeld(cal)
 			}
 		}
-	})
+	}
 	if r.heldF == nil {
-		c.Fatalf("role locker.held: Unlock has no CompareAndSwapInt32(&flag,1,0)")
+		c.Fatalf("role locker.held: Unlock has no compare-and-swap (1 -> 0) of a Locker field")
 	}
 	c.Role("locker.held", r.heldF.Name(), r.heldF.Pos())
 	r.all = c.P.FuncsOf("kvs/distlock")
@@ -195,14 +207,17 @@ func (r *lockRoles) flagReset(in ssa.Instruction) bool {
 	if !ok {
 		return false
 	}
-	switch ir.CalleeFullName(call) {
-	case "sync/atomic.StoreInt32":
-		k, isC := ir.ConstInt(call.Call.Args[1])
-		_, isFlag := fieldAddrOf(call.Call.Args[0], r.heldF)
+	op, addr, args, isAtomic := ir.AtomicCall(call)
+	if !isAtomic {
+		return false
+	}
+	_, isFlag := fieldAddrOf(addr, r.heldF)
+	switch {
+	case op == "Store" && len(args) == 1:
+		k, isC := ir.ConstInt(args[0])
 		return isFlag && isC && k == 0
-	case "sync/atomic.CompareAndSwapInt32":
-		k, isC := ir.ConstInt(call.Call.Args[2])
-		_, isFlag := fieldAddrOf(call.Call.Args[0], r.heldF)
+	case op == "CompareAndSwap" && len(args) == 2:
+		k, isC := ir.ConstInt(args[1])
 		return isFlag && isC && k == 0
 	}
 	return false
@@ -259,6 +274,61 @@ func successEdgeOf(call *ssa.Call, from, to *ssa.BasicBlock) bool {
 }
 
 // possibleSuccessExit reports whether ret may be a success exit of fn.
+// successExitPoint is possibleSuccessExit for one exit point (a return split by the alternatives of its results).
+func successExitPoint(fn *ssa.Function, e ir.ExitPoint) bool {
+	rs := fn.Signature.Results()
+	if rs.Len() == 0 {
+		return true
+	}
+	last := rs.At(rs.Len() - 1).Type()
+	v := e.Result(rs.Len() - 1)
+	if ir.IsErrorType(last) {
+		if v != nil && knownNonNilErr(v) {
+			return false
+		}
+		return ir.ClassifyErr(v, e.Block) != ir.ErrNonNil
+	}
+	if types.Identical(last, types.Typ[types.Bool]) {
+		if b := ir.ConstVal(ir.Resolve(v)); b != nil {
+			return b.String() == "true"
+		}
+		return true
+	}
+	return true
+}
+
+// knownNonNilErr: an error built by fmt.Errorf / errors.New, a package-level sentinel, or the result of a repository
+// function all of whose returns are such.
+func knownNonNilErr(v ssa.Value) bool {
+	v = ir.Resolve(v)
+	switch x := v.(type) {
+	case *ssa.Call:
+		switch ir.CalleeFullName(x) {
+		case "fmt.Errorf", "errors.New":
+			return true
+		}
+		if cal := ir.StaticCallee(x); cal != nil && len(cal.Blocks) > 0 {
+			all := true
+			rets := ir.Returns(cal)
+			for _, r := range rets {
+				if len(r.Results) != 1 {
+					all = false
+					break
+				}
+				if call2, ok := ir.Resolve(r.Results[0]).(*ssa.Call); !ok || (ir.CalleeFullName(call2) != "fmt.Errorf" && ir.CalleeFullName(call2) != "errors.New") {
+					all = false
+				}
+			}
+			return all && len(rets) > 0
+		}
+	case *ssa.UnOp:
+		if _, ok := x.X.(*ssa.Global); ok {
+			return true
+		}
+	}
+	return false
+}
+
 func possibleSuccessExit(fn *ssa.Function, ret *ssa.Return) bool {
 	rs := fn.Signature.Results()
 	if rs.Len() == 0 {
@@ -411,12 +481,16 @@ func runC01(c *Ctx) {
 			guarded := ir.HasFact(in.Block(), func(f ir.Fact) bool {
 				ff := f.StripNot()
 				call, ok := ff.Cond.(*ssa.Call)
-				if !ok || !ff.True || ir.CalleeFullName(call) != "sync/atomic.CompareAndSwapInt32" {
+				if !ok || !ff.True {
 					return false
 				}
-				o, _ := ir.ConstInt(call.Call.Args[1])
-				nn, _ := ir.ConstInt(call.Call.Args[2])
-				_, isFlag := fieldAddrOf(call.Call.Args[0], r.heldF)
+				op, addr, args, isAtomic := ir.AtomicCall(call)
+				if !isAtomic || op != "CompareAndSwap" || len(args) != 2 {
+					return false
+				}
+				o, _ := ir.ConstInt(args[0])
+				nn, _ := ir.ConstInt(args[1])
+				_, isFlag := fieldAddrOf(addr, r.heldF)
 				return isFlag && o == 1 && nn == 0
 			})
 			c.Decide("C01.R3", fn, "Delete only by the holder", in, guarded, "the lock record is deleted on a path that is not the holder's (CompareAndSwap(held,1,0) true edge): a failed or foreign attempt removes the holder's record")
@@ -467,8 +541,7 @@ func runC01(c *Ctx) {
 			}
 			okA := true
 			for _, ref := range *fa.Referrers() {
-				call, isCall := ref.(ssa.CallInstruction)
-				if !isCall || !strings.HasPrefix(ir.CalleeFullName(call), "sync/atomic.") {
+				if _, _, _, isAtomic := ir.AtomicCall(ref); !isAtomic {
 					okA = false
 				}
 			}
@@ -620,11 +693,12 @@ func runC04(c *Ctx) {
 
 	// R4 shutdown re-check; R5 cancellable local wait
 	for h := range r.tokenHelpers {
-		for _, ret := range ir.Returns(h) {
-			if !possibleSuccessExit(h, ret) {
+		for _, e := range ir.ExitPoints(h) {
+			ret := e.Ret
+			if !successExitPoint(h, e) {
 				continue
 			}
-			ok := ir.HasFact(ret.Block(), func(f ir.Fact) bool {
+			ok := e.HasFact(func(f ir.Fact) bool {
 				ff := f.StripNot()
 				call, isCall := ff.Cond.(*ssa.Call)
 				if !isCall || !ff.True || !strings.HasSuffix(ir.CalleeFullName(call), "chans.IsOpened") {
@@ -959,8 +1033,9 @@ func runC05(c *Ctx) {
 				switch x := ir.Resolve(v).(type) {
 				case *ssa.Call:
 					name := ir.CalleeFullName(x)
-					if strings.HasPrefix(name, "sync/atomic.Load") && len(x.Call.Args) == 1 {
-						if fa, ok := x.Call.Args[0].(*ssa.FieldAddr); ok && namedOf(fa.X.Type()) == r.locker {
+					if op, addr, _, isAtomic := ir.AtomicCall(x); isAtomic && op == "Load" {
+						_ = name
+						if fa, ok := addr.(*ssa.FieldAddr); ok && namedOf(fa.X.Type()) == r.locker {
 							found = true
 							return
 						}
@@ -968,7 +1043,7 @@ func runC05(c *Ctx) {
 					if cal := ir.StaticCallee(x); cal != nil && cal.Signature.Recv() != nil && namedOf(cal.Signature.Recv().Type()) == r.locker && len(cal.Blocks) > 0 {
 						// a Locker method that reads an atomic field (isLocked())
 						ir.Instrs(cal, func(in ssa.Instruction) {
-							if cc, ok := in.(*ssa.Call); ok && strings.HasPrefix(ir.CalleeFullName(cc), "sync/atomic.Load") {
+							if op, _, _, isAtomic := ir.AtomicCall(in); isAtomic && op == "Load" {
 								found = true
 							}
 						})
